@@ -1,3 +1,4 @@
 /- Aggregate: C02 buffer contract + output-in-grammar theorems (C02.lean, through C07) and the composition with C01.valid_json (C02Parse.lean). -/
 import AJ.Props.C02
 import AJ.Props.C02Parse
+import AJ.Props.SlotCor
